@@ -33,6 +33,12 @@ func (s *Store) snapshotRevert(revertTo Snapshot) error {
 		return err
 	}
 
+	if s.footer != nil {
+		// Keep the history walkable: the new footer follows the one that
+		// was current until now.
+		footer.PrevFooterOffset = s.footer.filePos
+	}
+
 	err = s.persistFooter(revertToFooter.SegmentLocs[0].mref.fref.file, footer,
 		persistOptions)
 	if err != nil {
